@@ -69,6 +69,15 @@ CHECKS = {
               "back ends, and bit-identical reconstructions across 8 mode/back-end/level settings."),
         note=TB_COMMON + "zlib and zstd are trusted code (round trip, headers, frame-size query are assumptions sampled by the check); c2gallina for isZlibFormat; constants by source-text anchors.",
         technique="Coq proof (schedule induction, finite sweep over levels, section hypotheses for the back ends) + differential and mode-independence checks"),
+    "C16": dict(
+        category="proof", design_ref="DESIGN.md §4 C16",
+        text=("Theorems over the model of SZ_ReadConf's key ladder and SZ_Init_Params: the file that spells out a parameter structure initialises "
+              "to exactly the state programmatic initialisation yields (all 26 fields incl. the derived quantisation state), an odd interval count "
+              "or an unknown value for any of the eight validated keys is rejected, and the level key of the selected back end governs. Model vs "
+              "implementation on generated files in many concrete syntaxes (case, spacing, quotes, comments, float/hex syntaxes) and on ill-formed "
+              "variants; on the implementation alone: file vs programmatic fields and the stream compressed under each."),
+        note=TB_COMMON + "strtol/atof trusted; the INI lexer is tied by the differential check (not modelled); PASTRI configurations not modelled.",
+        technique="Coq proof over a token-level model of the configuration ladder + differential check with rendered configuration files"),
 }
 
 NOT_YET = {}
